@@ -1638,3 +1638,49 @@ def t9(ctx):
                   'the result\'s %s is %s, the engine reports %s' % (
                       a_, src(v) if v is not None else 'never set',
                       pat.replace('?nt', 'type(tree)').replace('?h', 'the registry entry')), mod.loc(fn))
+
+
+B1_SYNONYMS = {('namespace', 'registry_namespace'), ('obj', 'object'), ('cls', 'type'),
+               ('collection', 'object')}
+
+
+@rule('B1', floor=30, title='the keyword under which the engine accepts an argument is the parameter it reaches')
+def b1(ctx):
+    """pybind11 binds the i-th `py::arg("name")` to the i-th C++ parameter whatever it is called.
+    Two adjacent parameters of the same type (`f_node` / `f_leaf`, `flatten_func` /
+    `unflatten_func`) can be listed in the wrong order without a compile error or a type error at
+    run time; every caller that passes them by keyword then reaches the other parameter.  For every
+    binding with a known target the i-th keyword must name the i-th parameter (a short synonym
+    table covers the places where the Python name differs on purpose)."""
+    prog = ctx.cxx()
+    bt = binding_table(prog)
+    n = 0
+    for (owner, name), b in sorted(bt.items()):
+        tk = b.target_key
+        tk = tuple(tk) if isinstance(tk, list) else tk
+        t = prog.funcs.get(tk) if tk else None
+        if t is None and b.lambda_key:
+            lk = tuple(b.lambda_key) if isinstance(b.lambda_key, list) else b.lambda_key
+            t = prog.funcs.get(lk)
+        if t is None or not b.args:
+            continue
+        pn = [p[0] for p in t.params]
+        an = [a for a, _ in b.args]
+        # bound methods written as lambdas take the instance first
+        if len(pn) == len(an) + 1:
+            pn = pn[1:]
+        if len(pn) != len(an):
+            ctx.info('_C.%s.%s/arity' % (owner, name), 'binding lists %d arguments, target takes %d'
+                     % (len(an), len(pn)), getattr(b.node, 'loc', None))
+            continue
+        n += 1
+        bad = []
+        for i, (a, p) in enumerate(zip(an, pn)):
+            if p is None or a == p or (a, p) in B1_SYNONYMS:
+                continue
+            bad.append('argument %d is accepted as `%s` but reaches parameter `%s`%s'
+                       % (i, a, p, ' (and `%s` is the name of parameter %d)' % (a, pn.index(a)) if a in pn else ''))
+        ctx.check('_C.%s.%s/keywords' % (owner, name), not bad,
+                  '_C %s.%s: keywords %s reach the parameters of the same name' % (owner, name, an),
+                  '_C %s.%s: %s' % (owner, name, '; '.join(bad)), getattr(b.node, 'loc', None))
+    ctx.analysed['bindings_with_keywords'] = n
